@@ -49,7 +49,7 @@ fn main() {
         let mut small = spec.clone();
         small.ops = ops;
         let mut d = driver_path.as_ref().and_then(|p| Driver::spawn(p).ok());
-        let rr = run_case(&small, Source::Replay { ops: small.ops.clone(), at: 0 }, d.as_mut(), None, false);
+        let rr = run_case(&small, Source::Replay { ops: small.ops.clone(), at: 0 }, d.as_mut(), None, cfg!(feature = "vmem"));
         let fs: Vec<String> = rr.failures.iter().take(6).map(|f| obj(&[("kind", esc(f.kind)), ("tags", strs(&f.tags.iter().map(|t| t.to_string()).collect::<Vec<_>>())), ("step", f.step.to_string()), ("op", esc(&f.op)), ("detail", esc(&f.detail))])).collect();
         let mut executed = small.clone();
         executed.ops = rr.executed.clone();
@@ -87,15 +87,25 @@ fn main() {
         let mut driver = driver_path.as_ref().map(|p| Driver::spawn(p).expect("cannot start the Lean driver"));
         for _ in 0..cases {
             let heap = if cfg!(feature = "vmem") { true } else { rng.chance(1, 2) };
-            let len = if heap { *rng.pick(&[1usize, 2, 2, 3, 3, 4, 4, 5, 6, 7, 8, 9, 12, 16, 33]) } else { *rng.pick(&STACK_LENS) };
+            let ps = 4096usize; // the page size (elements must come in multiples of it under vmem)
+            let len = if cfg!(feature = "vmem") { *rng.pick(&[ps, ps, 2 * ps]) } else if heap { *rng.pick(&[1usize, 2, 2, 3, 3, 4, 4, 5, 6, 7, 8, 9, 12, 16, 33]) } else { *rng.pick(&STACK_LENS) };
             let uni = match uni_arg.as_deref() {
                 Some("tok") => Universe::Tok, Some("tok12") => Universe::Tok12, Some("u64") => Universe::U64,
                 _ => if pr.owned { if rng.chance(1, 2) { Universe::Tok } else { Universe::Tok12 } } else { Universe::U64 },
             };
-            let zeroed = if uni == Universe::U64 { rng.chance(1, 4) } else { rng.chance(1, 2) };
-            let spec = CaseSpec { conc: rng.chance(1, 2), heap, has_w: rng.chance(1, 2), len, uni, zeroed, ops: vec![] };
+            let zeroed = if cfg!(feature = "vmem") { true } else if uni == Universe::U64 { rng.chance(1, 4) } else { rng.chance(1, 2) };
+            let mut spec = CaseSpec { conc: rng.chance(1, 2), heap, has_w: rng.chance(1, 2), len, uni, zeroed, ops: vec![] };
             let nops = rng.range(pr.max_ops / 3, pr.max_ops);
-            let r = run_case(&spec, Source::Gen { rng: &mut rng, profile: &pr, gen: Gen::new(), remaining: nops }, driver.as_mut(), log.as_mut(), false);
+            if cfg!(feature = "vmem") {
+                // position all iterators a few slots before the physical end, so that the history plays around the seam
+                let k = len - rng.range(1, 6);
+                if spec.uni == Universe::U64 { spec.ops.push(mrb_harness::ops::Op::PushS((0..k as u64).map(|i| 5000 + i).collect())); }
+                else { for _ in 0..k { spec.ops.push(mrb_harness::ops::Op::PushI(0)); } }
+                if spec.has_w { spec.ops.push(mrb_harness::ops::Op::Avail(mrb_harness::ops::Role::W)); spec.ops.push(mrb_harness::ops::Op::Adv(mrb_harness::ops::Role::W, k, vec![])); }
+                spec.ops.push(mrb_harness::ops::Op::Avail(mrb_harness::ops::Role::C)); spec.ops.push(mrb_harness::ops::Op::Adv(mrb_harness::ops::Role::C, k, vec![]));
+            }
+            let prefix = std::mem::take(&mut spec.ops);
+            let r = run_case(&spec, Source::Gen { rng: &mut rng, profile: &pr, gen: Gen::new(), remaining: nops, prefix, prefix_at: 0 }, driver.as_mut(), log.as_mut(), cfg!(feature = "vmem"));
             ncases += 1;
             *lens.entry(spec.len).or_insert(0) += 1;
             *variants.entry(format!("{}{}{}", if spec.conc { "Conc" } else { "Local" }, if spec.heap { "Heap" } else { "Stack" }, if spec.has_w { "3" } else { "2" })).or_insert(0) += 1;
